@@ -432,6 +432,26 @@ CRYPTO_TYPES = ('bls12_381_plus::G1Affine', 'bls12_381_plus::G2Affine', 'bls12_3
                 'bls12_381_plus::Gt', 'bls12_381_plus::G1Compressed', 'bls12_381_plus::G2Compressed')
 
 
+def _const_operands(b):
+    """(line, operand) for every constant operand used as a value: statement operands and call arguments (not the callee itself)"""
+    for blk in b.blocks:
+        if blk['cleanup']:
+            continue
+        for st in blk['stmts']:
+            if st['k'] != 'assign':
+                continue
+            rv = st['rv']
+            ops = [rv.get('op'), rv.get('a'), rv.get('b')] + list(rv.get('ops') or [])
+            for o in ops:
+                if isinstance(o, dict) and o.get('k') == 'const':
+                    yield st.get('line'), o
+        t = blk['term']
+        if t['k'] == 'call':
+            for o in t['args']:
+                if o.get('k') == 'const':
+                    yield t.get('line'), o
+
+
 def rule_checked_constructors(ctx, cfg='prod-all'):
     prog = ctx.prog(cfg)
     n = 0
@@ -452,6 +472,20 @@ def rule_checked_constructors(ctx, cfg='prod-all'):
             yield Ob('RF-D', '%s#constructor:%s' % (owner, cal0.split('bls12_381_plus::')[-1]), ok,
                      'octets become a group element / scalar only through a constructor that checks curve, subgroup and range', '%s L%s' % (b.file(), t['line']),
                      fact={'callee': cal0, 'why': CHECKED.get(cal0) or TABLED_OTHER.get((owner, cal0))}, expected='checked constructor or tabled exception')
+        # a constructor handed on as a function value (`parse_point(slice, G1Affine::from_compressed, ..)`) is a use like a call
+        for line, o in _const_operands(b):
+            f = o.get('fn') or ''
+            if not f.startswith(CRYPTO_TYPES):
+                continue
+            last = '::' + f.split('::')[-1]
+            if not (last.startswith(CONSTRUCTOR_PAT) or 'unchecked' in last):
+                continue
+            n += 1
+            ok = f in CHECKED or (owner, f) in TABLED_OTHER
+            yield Ob('RF-D', '%s#constructor-value:%s' % (owner, f.split('bls12_381_plus::')[-1]), ok,
+                     'octets become a group element / scalar only through a constructor that checks curve, subgroup and range (constructor passed as a value)',
+                     '%s L%s' % (b.file(), line), fact={'function_value': f, 'why': CHECKED.get(f) or TABLED_OTHER.get((owner, f))},
+                     expected='checked constructor or tabled exception')
     yield Ob('RF-D', 'crate#constructor-census', n >= 7, 'constructor call sites found', '', fact=n, expected='>= 7', nontrivial=False)
     # subgroup / curve predicates used as a substitute for the checked constructors are suspicious: census must be empty
     subst = []
